@@ -6,6 +6,9 @@ import json, os, subprocess, sys, glob, re
 
 EXTRA = {  # additional checks that are expected to see the same defect
     "C05-B": ["C20"], "C08-A": ["C12"], "C10-B": ["C18"], "C12-B": ["C18", "C10"], "C13-B": ["C18"], "C18-A": ["C06"], "C18-B": ["C16"],
+    "C10-r2A": ["C04"], "C16-r2A": ["C04"], "C07-r2A": ["C04"], "C11-r2A": ["C04"], "C17-r2B": ["C04"], "C07-r2B": ["C10", "C18"], "C05-r2B": ["C10", "C18"],
+    "C12-r2B": ["C18"], "C03-r2B": ["C06"], "C13-r2B": ["C18"], "C08-r2B": ["C18"], "C08-r2A": ["C12"], "C18-r2B": ["C11"], "C10-r2B": ["C18", "C12"],
+    "C19-r2B": ["C20"], "C19-r2A": ["C17"], "C17-r2A": ["C19"], "C01-r2B": ["C15"], "C04-r2A": ["C10"], "C20-r2A": ["C15"],
     "C04-B": ["C16"], "C19-B": ["C16"], "C06-B": ["C18"], "C16-A": ["C18"], "C20-B": [], "C11-A": ["C06"], "C05-A": ["C07"],
 }
 RUNS = int(os.environ.get("SEED_RUNS", "2"))
@@ -52,7 +55,7 @@ def main():
         json.dump(meta, open(mp, "w"), indent=1)
         rows.append((name, prop, "", res))
         print(name, {c: f"{r['detected']}/{r['runs']}" for c, r in res.items()}, flush=True)
-    with open("/verif/seeded/MATRIX.md", "w") as f:
+    with open(os.environ.get("SEED_MATRIX", "/verif/seeded/MATRIX.md"), "w") as f:
         f.write("# Seeded defects vs checks (quick tier, %d runs each)\n\n| seeded defect | breaks | detected by (runs detected / runs) |\n|---|---|---|\n" % RUNS)
         for name, prop, err, res in rows:
             cell = err or ", ".join(f"{c} {r['detected']}/{r['runs']}" for c, r in res.items())
